@@ -177,6 +177,26 @@ def logical_size(ctx):
             ok = ok and same
         ctx.inst('Q2', 'AsepriteFile::tilemap#size', ok, 'logical size = (%s); must be (ceil(width / tile width), ceil(height / tile height)) of the handle\'s tileset'
                  % ', '.join(d), st.get('span'), key=b.name + '|Q2|size')
+        # .. and `get(id)` is the lookup by the tileset's own id, whatever order the tileset chunks came in (seed C08-o kept the tilesets in a
+        # Vec in file order and looked them up by position: sparse or unordered ids got the wrong tileset)
+        gb = ctx.anchor(TS + 'TilesetsById::get')
+        ab_ = fx.body(TS + 'TilesetsById::add')
+        if gb is not None:
+            gt = res(gb).ret()
+            key_ = gt[2][1] if gt[0] == 'call' and gt[1] == 'std::collections::HashMap::get' and len(gt[2]) == 2 else None
+            okg_ = key_ is not None and is_param_path(gt[2][0], 1, ['0']) and [x for x in walk(key_) if x[0] == 'param'] == [('param', 2, 'id')] and \
+                (is_param(strip_casts(key_), 2) or (key_[0] == 'call' and key_[1].endswith('TilesetId::from_raw')) or key_[0] == 'agg')
+            oki_ = False
+            if ab_ is not None:
+                for c_ in q.calls(ab_, 'std::collections::HashMap::insert'):
+                    a_ = q.arg_terms(c_)
+                    k_ = strip_casts(a_[1])
+                    if k_[0] == 'call' and k_[1].endswith('TilesetId::from_raw') and len(k_[2]) == 1:
+                        k_ = strip_casts(k_[2][0])
+                    # the same key construction on both sides (raw id, or TilesetId::from_raw of it)
+                    oki_ = is_param_path(k_, 2, ['id']) and is_param(a_[2], 2)
+            ctx.inst('Q2', 'TilesetsById::get', okg_ and oki_, 'get(id) = %s, add(t) stores under %s; must be a map lookup of the id among tilesets stored under their own id'
+                     % (show(gt)[:80], 't.id' if oki_ else 'SOMETHING ELSE'), gb.span, key=gb.name + '|Q2|by-id')
         tsv = f.get('tileset', ('unknown',))
         okt = tsv[0] == 'call' and tsv[1] == TS + 'TilesetsById::get' and any(
             x[0] == 'call' and x[1] == 'asefile::layer::Layer::layer_type' and x[2][0][0] == 'call' and x[2][0][1] == AF + 'layer' and
